@@ -82,6 +82,12 @@ Theorem C20_boundary_served : forall cfg st k now delay u v,
 Proof. exact boundary_served. Qed.
 Print Assumptions C20_boundary_served.
 
+Theorem C20_only_query_in_is_cached : forall cfg st k op now delay u,
+  op <> 0 \/ k_class k <> class_in ->
+  step cfg st (EQuery k op now delay u) = Ok (st, OBypass).
+Proof. exact bypass_untouched. Qed.
+Print Assumptions C20_only_query_in_is_cached.
+
 Theorem C20_store_invariant : forall cfg evs st os,
   run cfg state_init evs = Ok (st, os) -> inv cfg st.
 Proof. exact store_invariant. Qed.
